@@ -78,6 +78,9 @@ def _js(script):
     return [[x if not isinstance(x, list) else 'window(%d labels)' % len(x) for x in op] for op in script]
 
 
+UNLABELLED_REF = (1, 2600000.0, [])
+
+
 def std_worlds(tier, seed, per_world=4, depth2=True):
     """pack the standard queries into worlds of `per_world` queries (ids unsorted in the file); every third world lists all
     three references (in a non-sorted id order), the others only the planted one"""
@@ -89,8 +92,12 @@ def std_worlds(tier, seed, per_world=4, depth2=True):
     for ri, lst in sorted(by_ref.items()):
         for i in range(0, len(lst), per_world):
             grp = lst[i:i + per_world]
-            queries = [worlds.as_map(QIDS[j], pos, trailing=(0.0, 2500.0)[(i + j) % 2]) for j, (desc, pos) in enumerate(grp)]
+            queries = [worlds.as_map(QIDS[j], pos, trailing=(0.0, 2500.0, -1.0, 2500.0, 0.0, -0.6)[(i // per_world + j) % 6])
+                       for j, (desc, pos) in enumerate(grp)]
             wrefs = [refs[ri]] if (i // per_world) % 3 else [refs[ri], refs[(ri + 1) % 3], refs[(ri + 2) % 3]]
+            if (i // per_world) % 3 == 2:
+                # an unlabelled molecule with the LOWEST id leads the reference file (it must not disturb the maps that follow it)
+                wrefs = [UNLABELLED_REF] + wrefs
             ws.append(dict(refs=wrefs, queries=queries, desc=[d for d, _ in grp], extra_column=(i // per_world) % 2 == 1))
     ws.append(far_world())
     return ws
